@@ -50,6 +50,7 @@ type vtCase struct {
 	Sched   []int    `json:"sched"` // 1-based call indexes: the k-th occurrence of i releases the k-th gated step of call i
 	Term    string   `json:"term"`  // outcome of the model (statistics only, never compared here)
 	Wrap    bool     `json:"wrap"`  // invokable-only / streamable-only tools are built with components/tool/utils (NewTool / NewStreamTool)
+	OptList bool     `json:"optlist"` // the tools are given per call (WithToolList); the node is configured with another decoy only
 }
 
 type vtErr struct{ Name, Args string }
@@ -444,7 +445,7 @@ func vtRunCase(c *vtCase, sink *bufio.Writer) []string {
 	if sched == nil {
 		sched = []int{}
 	}
-	r.emit("case", "id", c.ID, "mode", c.Mode, "graph", c.Graph, "handler", c.Handler, "calls", calls, "tools", tools, "sched", sched, "wrap", c.Wrap)
+	r.emit("case", "id", c.ID, "mode", c.Mode, "graph", c.Graph, "handler", c.Handler, "calls", calls, "tools", tools, "sched", sched, "wrap", c.Wrap, "optlist", c.OptList)
 
 	ctx := context.Background()
 	bts := make([]tool.BaseTool, 0, len(c.Tools))
@@ -472,6 +473,11 @@ func vtRunCase(c *vtCase, sink *bufio.Writer) []string {
 		}
 	}
 	conf := &ToolsNodeConfig{Tools: bts}
+	var tnOpts []ToolsNodeOption
+	if c.OptList {
+		conf.Tools = []tool.BaseTool{&vtInvTool{vtBase{r: r, t: vtTool{Name: "tconf", Kind: "inv", Beh: "ok", Chunks: 1}}}}
+		tnOpts = []ToolsNodeOption{WithToolList(bts...)}
+	}
 	if c.Handler != "none" {
 		beh := "ok"
 		if c.Handler == "fail" {
@@ -507,11 +513,13 @@ func vtRunCase(c *vtCase, sink *bufio.Writer) []string {
 			r.emit("note", "text", "graph: "+err.Error())
 			return finish("setup")
 		}
-		invoke = func(m *schema.Message) ([]*schema.Message, error) { return run.Invoke(ctx, m) }
-		stream = func(m *schema.Message) (*schema.StreamReader[[]*schema.Message], error) { return run.Stream(ctx, m) }
+		invoke = func(m *schema.Message) ([]*schema.Message, error) { return run.Invoke(ctx, m, WithToolsNodeOption(tnOpts...)) }
+		stream = func(m *schema.Message) (*schema.StreamReader[[]*schema.Message], error) {
+			return run.Stream(ctx, m, WithToolsNodeOption(tnOpts...))
+		}
 	} else {
-		invoke = func(m *schema.Message) ([]*schema.Message, error) { return tn.Invoke(ctx, m) }
-		stream = func(m *schema.Message) (*schema.StreamReader[[]*schema.Message], error) { return tn.Stream(ctx, m) }
+		invoke = func(m *schema.Message) ([]*schema.Message, error) { return tn.Invoke(ctx, m, tnOpts...) }
+		stream = func(m *schema.Message) (*schema.StreamReader[[]*schema.Message], error) { return tn.Stream(ctx, m, tnOpts...) }
 	}
 	input := &schema.Message{Role: schema.Assistant}
 	for _, k := range c.Calls {
